@@ -982,6 +982,184 @@ Qed.
 
 End Lmp.
 
+(* ------------------------------------------------------------------ the boolean checkers of
+   model/ReadersM.v imply the well-formedness hypotheses *)
+Section WfB.
+Variable fok : token -> bool.
+Variable N : nat.
+
+Lemma cleanb_sound l : cleanb l = true -> clean l.
+Proof.
+  unfold cleanb, clean. rewrite forallb_forall. intros H Hin. specialize (H _ Hin).
+  now rewrite is_nl_nl in H.
+Qed.
+
+Lemma forallb_Forall {A} (p : A -> bool) (P : A -> Prop) l :
+  (forall x, p x = true -> P x) -> forallb p l = true -> Forall P l.
+Proof. intros HpP H. rewrite forallb_forall in H. apply Forall_forall. auto. Qed.
+
+Lemma count_okb_sound cl : count_okb N cl = true ->
+  exists tk rest, split cl = tk :: rest /\ parse_int tk = Some (Z.of_nat N).
+Proof.
+  unfold count_okb. destruct (split cl) as [|tk rest]; [discriminate|].
+  destruct (parse_int tk) as [n|] eqn:E; [|discriminate]. intros H. apply Z.eqb_eq in H. subst n.
+  exists tk, rest. split; [reflexivity|exact E].
+Qed.
+
+Lemma xyz_atom_okb_sound a : xyz_atom_okb fok a = true -> xyz_atom_ok fok a.
+Proof.
+  unfold xyz_atom_okb, xyz_atom_ok.
+  destruct (split a) as [|s [|t1 [|t2 [|t3 [|? ?]]]]]; try discriminate.
+  intros H. apply andb_prop in H as [H H3]. apply andb_prop in H as [H1 H2].
+  exists s, t1, t2, t3. auto.
+Qed.
+
+Theorem xyz_wfb_sound f : xyz_wfb fok N f = true -> xyz_wf fok N f.
+Proof.
+  unfold xyz_wfb, xyz_wf. destruct f as [|cl [|cm atoms]]; try discriminate.
+  intros H. apply andb_prop in H as [H H4]. apply andb_prop in H as [H H3].
+  apply andb_prop in H as [H1 H2].
+  exists cl, cm, atoms. split; [reflexivity|]. split; [now apply Nat.eqb_eq|].
+  split; [eapply forallb_Forall; [apply cleanb_sound|exact H2]|].
+  split; [now apply count_okb_sound|].
+  eapply forallb_Forall; [apply xyz_atom_okb_sound|exact H4].
+Qed.
+
+Lemma lmp_box_okb_sound b : lmp_box_okb fok b = true -> lmp_box_ok fok b.
+Proof.
+  unfold lmp_box_okb, lmp_box_ok. intros H. apply andb_prop in H as [H1 H2]. split; [|exact H2].
+  apply orb_prop in H1 as [H1|H1]; apply Nat.eqb_eq in H1; auto.
+Qed.
+
+Lemma lmp_atom_okb_sound a : lmp_atom_okb fok N a = true -> lmp_atom_ok fok N a.
+Proof.
+  unfold lmp_atom_okb, lmp_atom_ok, lmp_row. intros H.
+  apply andb_prop in H as [H H4]. apply andb_prop in H as [H H3]. apply andb_prop in H as [H1 H2].
+  split; [now apply Nat.eqb_eq|].
+  split; [destruct (list_eq_dec ascii_dec (hd [] (split a)) (last (split a) [])); [assumption|discriminate]|].
+  split; [|exact H4].
+  destruct (parse_int (hd [] (split a))) as [id|] eqn:E; [|discriminate].
+  apply andb_prop in H3 as [Ha Hb]. apply Z.leb_le in Ha, Hb. exists id. split; [reflexivity|lia].
+Qed.
+
+Lemma lmp_lines_okb_sound : forall ls m, lmp_lines_okb fok N m ls = true -> lmp_lines_ok fok N m ls.
+Proof.
+  induction ls as [|l ls IH]; intros m H; [exact I|]. cbn [lmp_lines_okb] in H.
+  apply andb_prop in H as [H H3]. apply andb_prop in H as [H1 H2].
+  split; [|now apply IH]. split.
+  - intros Hm. destruct (Z.leb_spec 5 m); [|lia]. destruct (Z.leb_spec m 7); [|lia].
+    cbn [andb] in H1. now apply lmp_box_okb_sound.
+  - intros Hm. destruct (Z.leb_spec 9 m); [|lia]. now apply lmp_atom_okb_sound.
+Qed.
+
+Theorem lmp_wfb_sound f : lmp_wfb fok N f = true -> lmp_wf fok N f.
+Proof.
+  unfold lmp_wfb, lmp_wf. destruct f as [|h0 [|h1 [|h2 [|cnt tail]]]]; try discriminate.
+  intros H. apply andb_prop in H as [H H5]. apply andb_prop in H as [H H4].
+  apply andb_prop in H as [H H3]. apply andb_prop in H as [H1 H2].
+  exists [h0; h1; h2; cnt], tail. split; [reflexivity|]. split.
+  { exists h0, h1, h2, cnt. split; [reflexivity|]. split; [|now apply count_okb_sound].
+    destruct h0; [discriminate H1|discriminate]. }
+  split; [eapply forallb_Forall; [apply cleanb_sound|exact H3]|].
+  split; [now apply Nat.eqb_eq|]. now apply lmp_lines_okb_sound.
+Qed.
+
+End WfB.
+
+(* ------------------------------------------------------------------ what lmp_value is, stated
+   without the reader's bookkeeping *)
+Lemma set_nth_length {A} (x : A) : forall l n, length (set_nth n x l) = length l.
+Proof. induction l as [|a l IH]; intros [|n]; cbn; auto. Qed.
+
+Lemma nth_error_set_nth_eq {A} (x : A) : forall l n, (n < length l)%nat -> nth_error (set_nth n x l) n = Some x.
+Proof.
+  induction l as [|a l IH]; intros [|n] H; cbn in *; try lia; [reflexivity|]. apply IH. lia.
+Qed.
+
+Lemma nth_error_set_nth_neq {A} (x : A) : forall l n m, n <> m -> nth_error (set_nth n x l) m = nth_error l m.
+Proof.
+  induction l as [|a l IH]; intros [|n] [|m] H; cbn; try reflexivity; try congruence.
+  apply IH. congruence.
+Qed.
+
+Section LmpValue.
+Variable fok : token -> bool.
+Variable N : nat.
+Local Notation Nz := (Z.of_nat N).
+
+Definition lmp_idx (a : list ascii) : nat := Z.to_nat (lmp_id a - 1).
+
+Lemma lmp_atom_ok_id a : lmp_atom_ok fok N a -> 1 <= lmp_id a <= Nz.
+Proof. intros (_ & _ & (id & Hid & Hr) & _). unfold lmp_id. now rewrite Hid. Qed.
+
+Lemma lmp_lines_ok_atoms : forall ls m, 9 <= m -> lmp_lines_ok fok N m ls -> Forall (lmp_atom_ok fok N) ls.
+Proof.
+  induction ls as [|l ls IH]; intros m Hm H; [constructor|]. destruct H as [[_ Ha] Hr].
+  constructor; [now apply Ha|]. apply (IH (m + 1)); [lia|exact Hr].
+Qed.
+
+Lemma lmp_body_atom m a box coord : 9 <= m ->
+  lmp_body m a (box, coord) = (box, set_nth (lmp_idx a) (Some (lmp_row a)) coord).
+Proof.
+  intros Hm. unfold lmp_body. cbn [fst snd].
+  destruct (Z.leb_spec m 7) as [?|_]; [lia|]. rewrite andb_false_r.
+  destruct (Z.leb_spec 9 m) as [_|?]; [|lia]. reflexivity.
+Qed.
+
+Lemma lmp_fold_atoms : forall atoms m box coord, 9 <= m ->
+  Forall (lmp_atom_ok fok N) atoms -> NoDup (map lmp_id atoms) -> length coord = N ->
+  let r := lmp_fold m atoms (box, coord) in
+  fst r = box /\ length (snd r) = N /\
+  (forall a, In a atoms -> nth_error (snd r) (lmp_idx a) = Some (Some (lmp_row a))) /\
+  (forall i, (forall a, In a atoms -> lmp_idx a <> i) -> nth_error (snd r) i = nth_error coord i).
+Proof.
+  induction atoms as [|a atoms IH]; intros m box coord Hm Hok Hnd Hlen; cbn zeta.
+  - cbn. repeat split; auto. intros a [].
+  - cbn [lmp_fold]. rewrite lmp_body_atom by assumption.
+    pose proof (Forall_inv Hok) as Ha. pose proof (Forall_inv_tail Hok) as Hoks.
+    cbn [map] in Hnd. apply NoDup_cons_iff in Hnd as [Hnin Hnd'].
+    pose proof (lmp_atom_ok_id a Ha) as Hida.
+    assert (Hm1 : 9 <= m + 1) by lia.
+    assert (Hlen' : length (set_nth (lmp_idx a) (Some (lmp_row a)) coord) = N) by now rewrite set_nth_length.
+    destruct (IH (m + 1) box (set_nth (lmp_idx a) (Some (lmp_row a)) coord) Hm1 Hoks Hnd' Hlen')
+      as (Hb & Hl & Hin & Hout).
+    cbn zeta in *. split; [exact Hb|]. split; [exact Hl|]. split.
+    + intros a' [<-|Ha'].
+      * rewrite Hout.
+        -- apply nth_error_set_nth_eq. unfold lmp_idx. lia.
+        -- intros b Hb' E. apply Hnin. apply in_map_iff. exists b. split; [|exact Hb'].
+           assert (Hidb : 1 <= lmp_id b <= Nz).
+           { apply lmp_atom_ok_id. eapply Forall_forall; [exact Hoks|exact Hb']. }
+           unfold lmp_idx in E. lia.
+      * now apply Hin.
+    + intros i Hi. rewrite Hout by (intros b Hb'; apply Hi; now right).
+      apply nth_error_set_nth_neq. apply Hi. now left.
+Qed.
+
+Theorem lmp_value_spec f : lmp_wf fok N f -> NoDup (map lmp_id (skipn 9 f)) ->
+  fst (lmp_value N f) = map split (firstn 3 (skipn 5 f)) /\
+  length (snd (lmp_value N f)) = N /\
+  forall a, In a (skipn 9 f) ->
+    nth_error (snd (lmp_value N f)) (Z.to_nat (lmp_id a - 1)) = Some (Some (lmp_row a)).
+Proof.
+  intros (head & tail & -> & (h0 & h1 & h2 & cnt & -> & _ & _) & _ & Hlen & Hok) Hnd.
+  destruct tail as [|t4 [|b5 [|b6 [|b7 [|t8 atoms]]]]]; cbn [length] in Hlen; try lia.
+  cbn [app skipn firstn map] in *. unfold lmp_value. cbn [app skipn lmp_fold].
+  destruct Hok as (_ & _ & _ & _ & _ & Hatoms).
+  apply lmp_lines_ok_atoms in Hatoms; [|lia].
+  assert (Hpre : lmp_body (4 + 1 + 1 + 1 + 1) t8 (lmp_body (4 + 1 + 1 + 1) b7 (lmp_body (4 + 1 + 1) b6
+                   (lmp_body (4 + 1) b5 (lmp_body 4 t4 (zeros_box, zeros_coord Nz))))) =
+                 ([split b5; split b6; split b7], zeros_coord Nz)) by reflexivity.
+  rewrite Hpre.
+  assert (H9 : 9 <= 4 + 1 + 1 + 1 + 1 + 1) by lia.
+  assert (Hzl : length (zeros_coord Nz) = N) by (unfold zeros_coord; rewrite repeat_length; lia).
+  destruct (lmp_fold_atoms atoms (4 + 1 + 1 + 1 + 1 + 1) [split b5; split b6; split b7] (zeros_coord Nz)
+              H9 Hatoms Hnd Hzl) as (Hb & Hl & Hin & _).
+  cbn zeta in *. split; [exact Hb|]. split; [exact Hl|]. exact Hin.
+Qed.
+
+End LmpValue.
+
 (* ------------------------------------------------------------------ incremental polling of the two text readers *)
 
 Theorem xyz_incremental fok N frames cuts : Forall (xyz_wf fok N) frames -> nondecr 0 cuts ->
@@ -1298,8 +1476,8 @@ Definition str (s : String.string) : list ascii := String.list_ascii_of_string s
 Definition l1_xyz_frame : list (list ascii) := [str "1"; str "c"; str "H 1.5 2.5 3.25"].
 
 Lemma l1_xyz_torn_value :
-  xyz_read py_float_ok false (firstn 18 (render l1_xyz_frame)) =
-  (None, [[[str "1.5"; str "2.5"; str "3.2"]]], 18).
+  xyz_read py_float_ok false (firstn 17 (render l1_xyz_frame)) =
+  (None, [[[str "1.5"; str "2.5"; str "3.2"]]], 17).
 Proof. vm_compute. reflexivity. Qed.
 
 (* CP2K right-aligns the atom count: a cut inside the leading blanks *)
@@ -1324,3 +1502,35 @@ Lemma l1_lmp_old_polls :
       (polls (lmp_read py_float_ok false) l1_lmp_file 0 [(l1_lmp_len - 1)%nat; (2 * l1_lmp_len)%nat]) =
   [(1%nat, Z.of_nat l1_lmp_len - 1); (0%nat, Z.of_nat l1_lmp_len)].
 Proof. vm_compute. reflexivity. Qed.
+
+Theorem xyz_old_refuted :
+  exists frames c, Forall (xyz_wf py_float_ok 1) frames /\
+    xyz_read py_float_ok false (firstn c (render (List.concat frames))) <>
+    (None, map xyz_value (firstn (nfit (map fsize frames) c) frames),
+     Z.of_nat (bytes_of (firstn (nfit (map fsize frames) c) frames))).
+Proof.
+  exists [l1_xyz_frame], 17%nat. split.
+  - repeat constructor. apply xyz_wfb_sound. vm_compute. reflexivity.
+  - intros E. vm_compute in E. discriminate E.
+Qed.
+
+Theorem xyz_old_raises :
+  exists frames c, Forall (xyz_wf py_float_ok 1) frames /\
+    fst (fst (xyz_read py_float_ok false (firstn c (render (List.concat frames))))) = Some EZeroDiv.
+Proof.
+  exists [l1_xyz_frame2], 1%nat. split.
+  - repeat constructor. apply xyz_wfb_sound. vm_compute. reflexivity.
+  - vm_compute. reflexivity.
+Qed.
+
+Theorem lmp_old_refuted :
+  exists frames cuts, Forall (lmp_wf py_float_ok 1) frames /\ nondecr 0 cuts /\
+    polls (lmp_read py_float_ok false) (render (List.concat frames)) 0 cuts <>
+    expected _ (lmp_value 1) frames 0 cuts.
+Proof.
+  exists [l1_lmp_frame; l1_lmp_frame], [(l1_lmp_len - 1)%nat; (2 * l1_lmp_len)%nat]. split; [|split].
+  - repeat constructor; apply lmp_wfb_sound; vm_compute; reflexivity.
+  - vm_compute. repeat split; lia.
+  - intros E. apply (f_equal (map (fun r => List.length (snd (fst r))))) in E.
+    vm_compute in E. discriminate E.
+Qed.
